@@ -320,7 +320,7 @@ def run(ctx):
         except Exception as ex:
             one = isinstance(ex, AssertionError) and 'Diagonal must be a vector' in str(ex)
             ctx.violation('l2-single-quadrature-point' if one else 'l2-raise', 'project_L2 raised %s' % type(ex).__name__, dict(replay, error=str(ex)[:200]), True)
-    ngeo = 10 if quick else 80
+    ngeo = 12 if quick else 100
     for it in range(ngeo):
         kvs = tuple(rand_kv(rng, bspline, pmax=3, maxspans=3) for _ in range(2))
         kvs = tuple(bspline.KnotVector((kv.kv - kv.kv[0]) / (kv.kv[-1] - kv.kv[0]), kv.p) if kv.p >= 1 else bspline.make_knots(1, 0.0, 1.0, 2) for kv in kvs)
@@ -342,6 +342,31 @@ def run(ctx):
                     np.abs(x - coef).max() if x.shape == coef.shape else np.inf, tol), replay, True)
         except Exception as ex:
             ctx.violation('l2-raise', 'project_L2 with geometry raised %s' % type(ex).__name__, dict(replay, error=str(ex)[:200]), True)
+        # data given in physical coordinates (f_physical=True) must be treated like its pull-back
+        aff = geometry.unit_square().scale((2.0, 0.5)).translate((1.0, -3.0))     # x = 2*xi_x + 1, y = xi_y/2 - 3
+        r = min(kv.p for kv in kvs)
+        cf = rng.integers(-3, 4, size=(r + 1, r + 1)).astype(float)
+        fphys = lambda x, y, cf=cf, r=r: sum(cf[i, j] * x ** i * y ** j for i in range(r + 1) for j in range(r + 1))
+        pull = lambda xp, yp, fphys=fphys: fphys(2.0 * xp + 1.0, 0.5 * yp - 3.0)
+        ctx.case(('l2phys', tuple((kv.p, kv.kv.tobytes()) for kv in kvs), cf.tobytes())); ctx.count('stream=l2-f_physical')
+        replay = {'mode': 'l2-f_physical', 'kvs': [(kv.p, kv.kv.tolist()) for kv in kvs], 'poly_xy': cf.tolist(),
+                  'geo': 'unit_square().scale((2,0.5)).translate((1,-3))'}
+        try:
+            xa = np.asarray(approx.project_L2(kvs, fphys, f_physical=True, geo=aff))
+            xb = np.asarray(approx.project_L2(kvs, pull, geo=aff))
+            cref = np.asarray(approx.interpolate(kvs, pull))       # the pull-back is a polynomial of the space
+            M = assemble.mass(kvs, geo=aff).toarray()
+            b = assemble.inner_products(kvs, pull, geo=aff).ravel()
+            minv = float(np.linalg.norm(np.linalg.inv(M), 2))
+            kap = float(np.prod([cond_inf(bspline.collocation(kv, kv.greville()).toarray()) for kv in kvs]))
+            sc = max(1.0, float(np.abs(cref).max()))
+            tol = minv * (10 * max(1e-12 * float(np.linalg.norm(b)), 1e-12) + 1024 * xa.size * EPS * float(np.linalg.norm(M, 2)) * sc) \
+                + 64.0 * xa.size * EPS * kap * sc
+            if xa.shape != cref.shape or np.abs(xa - cref).max() > tol or np.abs(xa - xb).max() > 2 * tol:
+                ctx.violation('l2-physical', 'project_L2(f_physical=True, geo) differs from the projection of the pull-back: |phys - ref| = %g, |phys - pullback| = %g, bound %g' % (
+                    np.abs(xa - cref).max() if xa.shape == cref.shape else np.inf, np.abs(xa - xb).max() if xa.shape == xb.shape else np.inf, tol), replay, True)
+        except Exception as ex:
+            ctx.violation('l2-raise', 'project_L2(f_physical=True) raised %s' % type(ex).__name__, dict(replay, error=str(ex)[:200]), True)
     nh = 6 if quick else 40
     import sys
     sys.stdout.flush(); sys.stderr.flush()
